@@ -412,6 +412,34 @@ Proof.
   do 3 (apply andb_true_iff in H as [H _]). exact H.
 Qed.
 
+(** keywords ([pkw]): like [ptag] whenever the rest does not continue an identifier *)
+Lemma pkw_ok t k : nid k = true -> pkw t (lit t ++ k) = POk tt k.
+Proof.
+  intros Hk. unfold pkw. rewrite strip_prefix_app.
+  destruct k as [|c k']; [now rewrite andb_false_r|].
+  unfold nid in Hk. cbn [hdp] in Hk. apply negb_true_iff in Hk. now rewrite Hk, andb_false_r.
+Qed.
+
+Lemma pkw_none t s : strip_prefix (lit t) s = None -> pkw t s = PFail.
+Proof. intros H. unfold pkw. now rewrite H. Qed.
+
+Lemma pkw_ptag t s r : pkw t s = POk tt r -> ptag t s = POk tt r.
+Proof.
+  unfold pkw, ptag. destruct (strip_prefix (lit t) s) as [r'|]; [|discriminate].
+  destruct (_ && _); [discriminate|auto].
+Qed.
+
+Lemma ptag_fail_pkw t s : ptag t s = PFail -> pkw t s = PFail.
+Proof.
+  unfold pkw, ptag. destruct (strip_prefix (lit t) s) as [r'|]; [discriminate|reflexivity].
+Qed.
+
+Lemma pkw_not_fatal t s : pkw t s <> PFatal.
+Proof.
+  unfold pkw. destruct (strip_prefix (lit t) s) as [r'|]; [|discriminate].
+  destruct (_ && _); discriminate.
+Qed.
+
 Lemma afol_ws ws s : forallb is_space ws = true -> afol s -> afol (ws ++ s).
 Proof.
   destruct ws as [|c ws]; [auto|]. cbn [forallb app]. intros H _. apply andb_true_iff in H as [H _].
@@ -735,13 +763,13 @@ Lemma literal_value_unfold s :
       match pdigit1 s with
       | POk d r => POk (EVal (from_string d)) r | PFatal => PFatal
       | PFail =>
-        match ptag "true" s with
+        match pkw "true" s with
         | POk _ r => POk (EVal (VBool true)) r | PFatal => PFatal
         | PFail =>
-          match ptag "false" s with
+          match pkw "false" s with
           | POk _ r => POk (EVal (VBool false)) r | PFatal => PFatal
           | PFail =>
-            match ptag "null" s with
+            match pkw "null" s with
             | POk _ r => POk (EVal VNone) r | PFatal => PFatal
             | PFail => PFail
             end
@@ -753,8 +781,8 @@ Lemma literal_value_unfold s :
 Proof.
   unfold literal_value, palt, pmap.
   destruct (quoted_string s); try reflexivity. destruct (duration s); try reflexivity.
-  destruct (pdigit1 s); try reflexivity. destruct (ptag "true" s); try reflexivity.
-  destruct (ptag "false" s); reflexivity.
+  destruct (pdigit1 s); try reflexivity. destruct (pkw "true" s); try reflexivity.
+  destruct (pkw "false" s); reflexivity.
 Qed.
 
 Lemma p_if_hd c r : (c =? 105)%N = false -> p_if oe (c :: r) = PFail.
@@ -853,25 +881,50 @@ Qed.
 Lemma atom_kw (w : str) c w' v :
   w = c :: w' -> starts_ident c = true -> forallb is_ident_char w' = true ->
   (forall k, p_if oe (w ++ k) = PFail) ->
-  (forall k, literal_value (w ++ k) = POk (EVal v) k) ->
+  (forall k, afol k -> literal_value (w ++ k) = POk (EVal v) k) ->
   S7 oe w (EVal v).
 Proof.
   intros Hw H1 H2 Hif Hlit k Hk. rewrite p_atomic_unfold, Hif.
   unfold p_fcall. rewrite (bare_kw w c w' k Hw H1 H2 Hk).
-  rewrite (p_args_fail _ (afol_not40 _ Hk)), Hlit. reflexivity.
+  rewrite (p_args_fail _ (afol_not40 _ Hk)), (Hlit k Hk). reflexivity.
+Qed.
+
+Ltac lit_kw_pre k :=
+  match goal with
+  | |- literal_value (?w ++ k) = _ =>
+    rewrite literal_value_unfold;
+    let E1 := fresh in let E2 := fresh in let E3 := fresh in
+    assert (E1 : quoted_string (w ++ k) = PFail) by (vm_compute; reflexivity);
+    assert (E2 : duration (w ++ k) = PFail) by (vm_compute; reflexivity);
+    assert (E3 : pdigit1 (w ++ k) = PFail) by (vm_compute; reflexivity);
+    rewrite E1, E2, E3; clear E1 E2 E3
+  end.
+
+Lemma lit_kw_true k : afol k -> literal_value (lit "true" ++ k) = POk (EVal (VBool true)) k.
+Proof. intros Hk. lit_kw_pre k. now rewrite (pkw_ok "true" k (afol_nid _ Hk)). Qed.
+Lemma lit_kw_false k : afol k -> literal_value (lit "false" ++ k) = POk (EVal (VBool false)) k.
+Proof.
+  intros Hk. lit_kw_pre k. rewrite (pkw_none "true" (lit "false" ++ k) eq_refl).
+  now rewrite (pkw_ok "false" k (afol_nid _ Hk)).
+Qed.
+Lemma lit_kw_null k : afol k -> literal_value (lit "null" ++ k) = POk (EVal VNone) k.
+Proof.
+  intros Hk. lit_kw_pre k. rewrite (pkw_none "true" (lit "null" ++ k) eq_refl).
+  rewrite (pkw_none "false" (lit "null" ++ k) eq_refl).
+  now rewrite (pkw_ok "null" k (afol_nid _ Hk)).
 Qed.
 
 Lemma atom_true : S7 oe (lit "true") (EVal (VBool true)).
 Proof.
-  eapply atom_kw; [reflexivity|reflexivity|reflexivity| |]; intros k; vm_compute; reflexivity.
+  eapply atom_kw; [reflexivity|reflexivity|reflexivity|intros k; vm_compute; reflexivity|apply lit_kw_true].
 Qed.
 Lemma atom_false : S7 oe (lit "false") (EVal (VBool false)).
 Proof.
-  eapply atom_kw; [reflexivity|reflexivity|reflexivity| |]; intros k; vm_compute; reflexivity.
+  eapply atom_kw; [reflexivity|reflexivity|reflexivity|intros k; vm_compute; reflexivity|apply lit_kw_false].
 Qed.
 Lemma atom_null : S7 oe (lit "null") (EVal VNone).
 Proof.
-  eapply atom_kw; [reflexivity|reflexivity|reflexivity| |]; intros k; vm_compute; reflexivity.
+  eapply atom_kw; [reflexivity|reflexivity|reflexivity|intros k; vm_compute; reflexivity|apply lit_kw_null].
 Qed.
 End Atoms.
 
@@ -958,7 +1011,7 @@ Lemma literal_value_name n t : safe_name n = true -> nid t = true -> literal_val
 Proof.
   intros Hs Ht. destruct (safe_parts _ Hs) as (c & n' & -> & H1 & H2 & H3 & H4 & H5).
   assert (Hid : forallb is_ident_char (c :: n') = true) by (cbn [forallb]; now rewrite (starts_is_ident _ H1), H2).
-  rewrite literal_value_unfold. unfold ptag.
+  rewrite literal_value_unfold. unfold pkw.
   rewrite (sp_app_none (lit "true") eq_refl _ _ Ht H3).
   rewrite (sp_app_none (lit "false") eq_refl _ _ Ht H4).
   rewrite (sp_app_none (lit "null") eq_refl _ _ Ht H5).
@@ -1687,6 +1740,11 @@ Proof.
   intros H. injection H as _ <-. now apply strip_prefix_len in E.
 Qed.
 
+Lemma LB_pkw t : LB (pkw t).
+Proof.
+  intros s a r H. destruct a. apply pkw_ptag in H. revert H. apply LB_ptag.
+Qed.
+
 Lemma quoted_body_len fuel q : forall s acc b r, quoted_body fuel q s acc = (b, r) -> length r <= length s.
 Proof.
   induction fuel as [|f IH]; intros s acc b r; cbn [quoted_body].
@@ -1784,7 +1842,7 @@ Qed.
 Lemma LB_literal_value : LB literal_value.
 Proof.
   unfold literal_value. repeat apply LB_palt; apply LB_pmap;
-    first [apply LB_quoted_string|apply LB_duration|apply LB_pdigit1|apply LB_ptag].
+    first [apply LB_quoted_string|apply LB_duration|apply LB_pdigit1|apply LB_pkw].
 Qed.
 
 Lemma LB_ref : LB (dot_property <|> index_access).
